@@ -19,6 +19,12 @@ func init() {
 }
 
 func runC13(c *Ctx) {
+	c13Rules(c, "")
+	c13Body(c)
+}
+
+// c13Rules declares the decoder rules (prefix marks them as shared when another property runs them).
+func c13Rules(c *Ctx, shared string) {
 	c.rule("pipeline", "each decoder: read-all error -> return; transformer over t.Type(); target = Translate() result passed by address to the library's whole-document unmarshal of the bytes read; unmarshal error -> return; result = ReverseTranslate(target) with the same transformer; every error return carries the zero Value", 12)
 	c.rule("entry-point", "each decoder hands the complete input to the library's whole-document entry point (json.Unmarshal, yaml.Unmarshal, toml.Unmarshal, cue CompileBytes + Err + Decode), which reject trailing garbage", 4)
 	c.rule("tag-table", "each chain contains TagCopyingMangler{SrcTag: dials, NewTag: X} with X the tag its library reads: json->json, yaml->yaml, toml->toml, cue->json", 4)
@@ -28,6 +34,11 @@ func runC13(c *Ctx) {
 	c.rule("zero-only-for-unset", "(shared with C10) reflect.Zero is handed back only under a true nil-ness test: an explicitly empty list/table in a document is not reported as unset", 7)
 	c.rule("should-recurse-table", "(shared with C10) the manglers used in decoder chains recurse into nested structs unconditionally (ShouldRecurse is the constant true): a set / duration / tagged field inside a struct that is a slice element is translated like a top-level one", 4)
 	c.rule("nonnil-preserved", "containers rebuilt when reversing the Duration substitution / set-to-slice manglers are make-built: an explicitly empty list or set in a document does not come back as unset; shared with C10", 3)
+	_ = shared
+}
+
+// c13Body runs the decoder rules (shared with C18: the ez entry points decode their file with these decoders).
+func c13Body(c *Ctx) {
 	c10NonNil(c)
 	c10ZeroOnlyUnset(c)
 	for _, im := range manglerImpls(c) {
